@@ -21,8 +21,10 @@ VARIABLES comps,     \* Seq of [kind, closeErr] : the registered components, in 
           log,       \* history: sequence of <<op, i>> calls made so far
           startErr,  \* "pending" | "none" | "init" | "run": what Start returned
           closeErrs, \* set of components whose Close error has been collected by app.Close
-          chain      \* Seq of sets of names: chain[1] = container under test, chain[k+1] = its parent
-vars == <<comps, fail, pc, idx, log, startErr, closeErrs, chain>>
+          chain,     \* Seq of sets of names: chain[1] = container under test, chain[k+1] = its parent
+          late       \* levels k >= 2 that register their components only AFTER their child container
+                     \* (level k-1) has been created with ChildApp(); resolution must not depend on it
+vars == <<comps, fail, pc, idx, log, startErr, closeErrs, chain, late>>
 
 N == Len(comps)
 Runnable(i) == comps[i].kind = "runnable"
@@ -38,7 +40,10 @@ Init ==
     /\ \/ fail.kind = "none" /\ fail.idx = 0
        \/ fail.kind = "init" /\ fail.idx \in 1..Len(comps)
        \/ fail.kind = "run" /\ fail.idx \in 1..Len(comps) /\ comps[fail.idx].kind = "runnable"
-    /\ chain \in Chains
+    \* the lifecycle part and the lookup part are independent: either an arbitrary nesting with
+    \* names (and no lifecycle components) or an arbitrary component list under 0..MaxDepth-1 empty parents
+    /\ \/ comps = <<>> /\ chain \in Chains /\ late \in SUBSET (2..Len(chain))
+       \/ chain \in {[k \in 1..d |-> {}] : d \in 1..MaxDepth} /\ late = {}
     /\ pc = "init" /\ idx = 1 /\ log = <<>> /\ startErr = "pending" /\ closeErrs = {}
 
 (* ---- Start: first loop, Init of every component in registration order ---- *)
@@ -48,12 +53,12 @@ InitStep ==
     /\ IF fail.kind = "init" /\ fail.idx = idx
          THEN pc' = "failclose" /\ idx' = idx /\ startErr' = "init"     \* closeServices(i)
          ELSE pc' = pc /\ idx' = idx + 1 /\ startErr' = startErr
-    /\ UNCHANGED <<comps, fail, closeErrs, chain>>
+    /\ UNCHANGED <<comps, fail, closeErrs, chain, late>>
 
 InitDone ==
     /\ pc = "init" /\ idx = N + 1
     /\ pc' = "run" /\ idx' = 1
-    /\ UNCHANGED <<comps, fail, log, startErr, closeErrs, chain>>
+    /\ UNCHANGED <<comps, fail, log, startErr, closeErrs, chain, late>>
 
 (* ---- Start: second loop, Run of every runnable component ---- *)
 RunStep ==
@@ -64,12 +69,12 @@ RunStep ==
                    THEN pc' = "failclose" /\ idx' = idx /\ startErr' = "run"
                    ELSE pc' = pc /\ idx' = idx + 1 /\ startErr' = startErr
          ELSE log' = log /\ pc' = pc /\ idx' = idx + 1 /\ startErr' = startErr
-    /\ UNCHANGED <<comps, fail, closeErrs, chain>>
+    /\ UNCHANGED <<comps, fail, closeErrs, chain, late>>
 
 RunDone ==
     /\ pc = "run" /\ idx = N + 1
     /\ pc' = "started" /\ startErr' = "none"
-    /\ UNCHANGED <<comps, fail, idx, log, closeErrs, chain>>
+    /\ UNCHANGED <<comps, fail, idx, log, closeErrs, chain, late>>
 
 (* ---- failure inside Start: close the runnable ones among the first idx, backwards.    *)
 (* Close errors are only logged here, Start returns the init/run error.                  *)
@@ -80,13 +85,13 @@ FailCloseStep ==
          ELSE /\ idx' = idx - 1
               /\ log' = IF Runnable(idx) THEN Append(log, <<"close", idx>>) ELSE log
               /\ pc' = pc
-    /\ UNCHANGED <<comps, fail, startErr, closeErrs, chain>>
+    /\ UNCHANGED <<comps, fail, startErr, closeErrs, chain, late>>
 
 (* ---- app.Close after a successful Start ---- *)
 CloseBegin ==
     /\ pc = "started"
     /\ pc' = "close" /\ idx' = N
-    /\ UNCHANGED <<comps, fail, log, startErr, closeErrs, chain>>
+    /\ UNCHANGED <<comps, fail, log, startErr, closeErrs, chain, late>>
 
 CloseStep ==
     /\ pc = "close"
@@ -96,7 +101,7 @@ CloseStep ==
               /\ log' = IF Runnable(idx) THEN Append(log, <<"close", idx>>) ELSE log
               /\ closeErrs' = IF Runnable(idx) /\ comps[idx].closeErr THEN closeErrs \cup {idx} ELSE closeErrs
               /\ pc' = pc
-    /\ UNCHANGED <<comps, fail, startErr, chain>>
+    /\ UNCHANGED <<comps, fail, startErr, chain, late>>
 
 Next == InitStep \/ InitDone \/ RunStep \/ RunDone \/ FailCloseStep \/ CloseBegin \/ CloseStep
 
